@@ -65,21 +65,22 @@ def parse_all_microseconds():
 # cut into cells in which T/10**6 and T each stay inside one binade; T is a multiple of 1000 and therefore never within 8 of a
 # power of two, so ts * 10**6 (within 0.25 of T) stays in T's binade.  One query per cell: the decoded microsecond count is T.
 LIMIT_2100_US = 4102444800 * 10 ** 6
+LIMIT_F3_US = LIMIT_2100_US + 31 * 86400 * 10 ** 6        # end instants: events that start before 2100 and last up to 31 days
 
 
-def f3_cells(limit_us=LIMIT_2100_US, timeout_s=60, claim="decoded"):
+def f3_cells(limit_us=LIMIT_2100_US, timeout_s=60, claim="decoded", step=1000):
     """claim='decoded': the lemma.  claim='stored' (negative control): 'the stored float equals T', which is false for small T -
     the same encoding must refute it."""
     from fractions import Fraction
     t0 = time.time()
     cells = 0
     worst = 0.0
-    # binades of x1 = T / 10^6 (e) and of T itself (f); T >= 1000
-    for e in range(-10, 33):
+    # binades of x1 = T / 10^6 (e) and of T itself (f); T >= 1 (T = 0 is evaluated directly)
+    for e in range(-20, 33):
         lo1, hi1 = Fraction(2) ** e * 10 ** 6, Fraction(2) ** (e + 1) * 10 ** 6        # T in [lo1, hi1)
-        for f in range(9, 53):
+        for f in range(0, 53):
             lo2, hi2 = 2 ** f, 2 ** (f + 1)
-            lo, hi = max(lo1, lo2, 1000), min(hi1, hi2, limit_us + 1)
+            lo, hi = max(lo1, lo2, 1), min(hi1, hi2, limit_us + 1)
             if lo >= hi:
                 continue
             cells += 1
@@ -89,7 +90,12 @@ def f3_cells(limit_us=LIMIT_2100_US, timeout_s=60, claim="decoded"):
             ts, m, q, p = z3.Real("ts"), z3.Real("m"), z3.Real("q"), z3.Real("p")
             Q = lambda fr: z3.RealVal(str(fr))
             k = z3.Int("k")
-            dom = [T == 1000 * k, z3.ToReal(T) >= Q(lo), z3.ToReal(T) < Q(hi)]
+            # step 1000: whole milliseconds (start instants of events); step 1: every whole microsecond (end instants).  For
+            # step 1 the powers of two themselves are excluded here (T * 10**6 / 10**6 may fall just below the binade there) and
+            # covered by direct evaluation under CPython (f3_powers_of_two): 44 instants.
+            dom = [T == step * k, z3.ToReal(T) >= Q(lo), z3.ToReal(T) < Q(hi)]
+            if step == 1:
+                dom.append(T != lo2)
             # ts = RN(T / 10^6) in binade e (the result may be the upper end point 2^(e+1): still a multiple of u1)
             rn1 = [ts == z3.ToReal(n1) * Q(u1), ts - z3.ToReal(T) / 1000000 <= Q(u1 / 2), z3.ToReal(T) / 1000000 - ts <= Q(u1 / 2)]
             # m = RN(ts * 10^6) in binade f
@@ -113,21 +119,43 @@ def f3_cells(limit_us=LIMIT_2100_US, timeout_s=60, claim="decoded"):
     return {"ok": True, "cells": cells, "time_s": round(time.time() - t0, 2), "worst_cell_s": round(worst, 3)}
 
 
+def f3_powers_of_two(limit_us=LIMIT_2100_US):
+    """F3 at the instants T = 2**f microseconds (f = 0..51), evaluated under CPython: the cells of f3_cells(step=1) leave them out."""
+    code = f"""
+from datetime import datetime, timezone, timedelta
+E = datetime(1970, 1, 1, tzinfo=timezone.utc)
+bad = 0
+n = 0
+for f in range(0, 53):
+    for us in (2 ** f, 0):
+        if us > {limit_us}:
+            continue
+        dt = E + timedelta(microseconds=us)
+        back = datetime.fromtimestamp((dt.timestamp() * 1000000) / 1000000, timezone.utc)
+        n += 1
+        bad += back != dt
+print(bad, n)
+"""
+    p = subprocess.run([VENV_PY, "-c", code], capture_output=True, text=True, timeout=120)
+    out = p.stdout.split()
+    return {"ok": bool(out) and out[0] == "0", "points": int(out[1]) if len(out) > 1 else 0}
+
+
 def f3_sample(n=200000, seed=1):
     """CPython cross-check of F3 on random instants and on every instant next to a binade boundary of T/10^6 or of T."""
     code = f"""
 import random
 from datetime import datetime, timezone, timedelta
 E = datetime(1970, 1, 1, tzinfo=timezone.utc)
-hi = {LIMIT_2100_US}
+hi = {LIMIT_F3_US}
 random.seed({seed})
-pts = [random.randrange(0, hi // 1000 + 1) * 1000 for _ in range({n})]
+pts = [random.randrange(0, hi // 1000 + 1) * 1000 for _ in range({n} // 2)] + [random.randrange(0, hi + 1) for _ in range({n} // 2)]
 for e in range(-10, 33):
     c = int(2 ** e * 10 ** 6) // 1000 * 1000
     pts += [c + d * 1000 for d in range(-3, 4)]
 for f in range(9, 53):
     c = 2 ** f // 1000 * 1000
-    pts += [c + d * 1000 for d in range(-3, 4)]
+    pts += [c + d * 1000 for d in range(-3, 4)] + [2 ** f + d for d in range(-3, 4)]
 bad = 0
 for us in pts:
     if not (0 <= us <= hi):
